@@ -728,12 +728,16 @@ def r_grid(ctx, a):
         ctx.count('maybe_to_*: ambiguous layout (nodal_shape == modal_shape) skipped')
     else:
         ctx.count('maybe_to_*: checked')
-        tr = cs.maybe_to_nodal({'m': jnp.asarray(x1), 'n': jnp.asarray(y1)}, c1)
-        _cmp_padded(ctx, 'maybe_to_nodal(modal)', np.asarray(tr['m']), n0, 4 * float(np.abs(x0).sum(axis=(1, 2)).max()) + 1)
-        ctx.oracle('maybe_to_nodal(nodal) is the identity', bool(np.array_equal(np.asarray(tr['n']), y1)))
-        tr = cs.maybe_to_modal({'m': jnp.asarray(x1), 'n': jnp.asarray(y1)}, c1)
-        _cmp_padded(ctx, 'maybe_to_modal(nodal)', np.asarray(tr['n']), m0, float(np.abs(y0).sum(axis=(1, 2)).max()) + 1)
-        ctx.oracle('maybe_to_modal(modal) is the identity', bool(np.array_equal(np.asarray(tr['m']), x1)))
+        sn = 4 * float(np.abs(x0).sum(axis=(1, 2)).max()) + 1; sm = float(np.abs(y0).sum(axis=(1, 2)).max()) + 1
+        try:
+            tr = cs.maybe_to_nodal({'m': jnp.asarray(x1), 'n': jnp.asarray(y1)}, c1)
+            _cmp_padded(ctx, 'maybe_to_nodal(modal)', np.asarray(tr['m']), n0, sn)
+            ctx.oracle('maybe_to_nodal(nodal) is the identity', bool(np.array_equal(np.asarray(tr['n']), y1)))
+            tr = cs.maybe_to_modal({'m': jnp.asarray(x1), 'n': jnp.asarray(y1)}, c1)
+            _cmp_padded(ctx, 'maybe_to_modal(nodal)', np.asarray(tr['n']), m0, sm)
+            ctx.oracle('maybe_to_modal(modal) is the identity', bool(np.array_equal(np.asarray(tr['m']), x1)))
+        except Exception as e:
+            ctx.oracle('maybe_to_nodal / maybe_to_modal accept a mixed nodal/modal pytree on an unambiguous layout', False, repr(e)[:300])
     # sharding constraints are semantically the identity (3-D, surface, 2-D leaves and scalars)
     if K % z == 0:
         tree = {'v': jnp.asarray(x1), 'p': jnp.asarray(x1[:1]), 'o': jnp.asarray(x1[0]), 's': 2.5}
